@@ -6127,6 +6127,9 @@ func (l *Lowerer) splatScalarToMatchPointer(pointer, value ir.ExpressionHandle) 
 		if _, isVec := valInner.(ir.VectorType); isVec {
 			return value // already vector
 		}
+		if _, isMat := valInner.(ir.MatrixType); isMat {
+			return value // vector *= matrix: a matrix is not a component to splat
+		}
 	}
 	// Check if pointer points to a vector type
 	if int(pointer) < len(l.currentFunc.ExpressionTypes) {
@@ -6163,6 +6166,9 @@ func (l *Lowerer) resolvePointerScalar(pointer ir.ExpressionHandle) (ir.ScalarTy
 			baseInner := l.module.Types[pt.Base].Inner
 			if s, ok := baseInner.(ir.ScalarType); ok {
 				return s, true
+			}
+			if m, ok := baseInner.(ir.MatrixType); ok {
+				return m.Scalar, true // matrix op= abstract scalar
 			}
 		}
 	}
